@@ -579,7 +579,7 @@ genRespOp()
 		std::ostringstream o;
 		int k = *gen::weightedElement<int>({{4, 0}, {2, 1}, {1, 2}});
 		int p = *pbt::range<int>(0, 2);
-		int t = *gen::weightedElement<int>({{12, 0}, {10, 1}, {8, 2}, {3, 3}, {1, 4}, {2, 5}, {1, 6}, {1, 7}});
+		int t = *gen::weightedElement<int>({{12, 0}, {10, 1}, {8, 2}, {3, 3}, {1, 4}, {2, 5}, {1, 6}, {1, 7}, {2, 8}});
 		switch (t) {
 		case 0: o << "req " << p << " " << *gen::weightedElement<int>({{6, 0}, {3, 1}, {2, 2}, {1, 6}, {1, 7}, {1, 8}, {1, 14}, {1, 15}}); break;
 		case 1: o << "recv " << k; break;
@@ -589,6 +589,7 @@ genRespOp()
 		case 5: o << "ctxopen " << *pbt::range<int>(1, 2); break;
 		case 6: o << "ttl " << *gen::element(1, 2, 3, 8, 15); break;
 		case 7: o << "badreq " << p << " " << *pbt::range<int>(0, 2); break;
+		case 8: o << "jamrep " << *pbt::range<int>(2, 4) << " " << *pbt::range<int>(0, 4); break;
 		}
 		return o.str();
 	});
